@@ -15,7 +15,7 @@ spec.loader.exec_module(m)
 MODEL = {
     "C01": "Gen/Opcodes, Model/Pattern (init(): template expansion, stub inference, field layout), Model/Insn (operand classes, encodeRM/Reg/Acc/Offset/Imm, getOpcode, compileInsn), Spec/Isa (independent ISA table and decoder)",
     "C02": "Gen/Meta (announced sizes), Model/Directive, Model/Asm (whole program), hook trace of compile_block",
-    "C03": "Model/Scope (lookup/define), Model/Defs (total lazy evaluator), Model/Ops, Model/Asm",
+    "C03": "Model/Scope (lookup/define), Model/Defs (total lazy evaluator), Model/Ops, Model/Poly, Model/Asm",
     "C04": "Model/Insn.offsetField / relWord, Spec/Ea (handbook effective-address rules)",
     "C05": "Model/Ops (operator functions on Int), Model/Parse + Model/Eval (transliterated parser/evaluator), Spec/Arith (independent evaluator), Gen/Operators",
     "C06": "Model/Insn.getAsInt, Model/Directive (every data directive), Gen/Codecs",
@@ -24,7 +24,7 @@ MODEL = {
     "C09": "Model/Lin (affine forms in the link base), Model/Asm",
     "C10": "Model/Parse (intOf, digitVal, lowerS, table lookups), Model/Insn (regNum, encodeRM), Model/Directive (wordList/wordDir)",
     "C11": "Model/Scope (qualified names, lookup, define, resolve), Model/Asm",
-    "C12": "Model/Link (decideBase, setLink, skipBytes) on Model/Lin, Model/Asm",
+    "C12": "Model/Link (decideBase, setLink, skipBytes) on Model/Lin, Model/Poly (deferred.LinearPolynomial), Model/Asm",
     "C13": "Model/Container (raw, bin, WAV), Gen/Wav (pulse shapes), Spec/Tape (RIFF reader, demodulators, end-around-carry sum)",
     "C14": "Gen/BkTable, Model/Bk, Spec/Koi8r",
     "C15": "Gen/Rad50, Model/Rad50, Spec/Rad50",
@@ -35,10 +35,10 @@ MODEL = {
 }
 
 SEARCH = {
-    "C01": "every word the real assembler emits is decoded by Spec.Isa.decode and compared with the source statement (operation, operands, order, values, length); a decode mismatch is the replay",
+    "C01": "every word the real assembler emits is decoded by Spec.Isa.decode and compared with the source statement (operation, operands, order, values, length); label operands in placement worlds (linked files, nested includes) with addresses known by construction; a decode mismatch is the replay",
     "C02": "hook trace: address given to a statement = base + bytes emitted before it, announced size = actual size, image slice = the statement's bytes; label values against the next statement's address",
     "C03": "metamorphic on the implementation alone: all placements of the definitions must give equal (outcome, base, image, error kinds); chains against the value the generator computed; constant-in-position against the literal program",
-    "C04": "the displacement in the emitted word is run through Spec.Ea (what a PDP-11 would compute) and compared with the target written in the source; accept/reject against the handbook reach",
+    "C04": "the displacement in the emitted word is run through Spec.Ea (what a PDP-11 would compute) and compared with the target written in the source; accept/reject against the handbook reach; placement worlds: every branch and relative operand to a label in the same file, another linked file, the including or an included file",
     "C05": "the value the generator's own tree has under Spec.Arith (floor arithmetic written independently) against the emitted word; error kinds for division by zero / negative and absurd shifts",
     "C06": "expected bytes computed in Python from the directive's definition (little-endian, two's complement, zero fill length) at every boundary value; refuse-not-truncate checked as: failed + error kind, no image",
     "C07": "exit status != 0 iff an error-severity report was displayed; scratch directory unchanged on failure; equal (exit, files, bytes) across every -W / format selection",
